@@ -124,9 +124,13 @@ func (b *Broadcaster[T]) Broadcast(value T) {
 // the subscribers. The Broadcaster will be a no-op after this call.
 func (b *Broadcaster[T]) Close() {
 	defer b.wg.Wait()
-	b.lock.Lock()
+	// Close closeCh before taking the lock: a Broadcast blocked on a subscriber
+	// that does not read holds the lock and only lets go once it sees closeCh.
 	if b.closed.CompareAndSwap(false, true) {
 		close(b.closeCh)
 	}
-	b.lock.Unlock()
+	// Barrier: a Subscribe that saw the Broadcaster open has registered its
+	// forwarder with the wait group before the deferred Wait runs.
+	b.lock.Lock()
+	b.lock.Unlock() //nolint:staticcheck
 }
